@@ -21,6 +21,8 @@
 
 
 #include <stdio.h>
+#include <sys/types.h>
+#include <sys/uio.h>
 
 
 
@@ -32,3 +34,4 @@
 
 int snoopy_util_file_getSmallTextFileContent (const char * const filePath, char ** contentPtr);
 int snoopy_util_file_writeLineToCallerStream (FILE * const stream, char const * const line);
+ssize_t snoopy_util_file_writevNoSignal (int fd, struct iovec const * const iov, int iovcnt);
